@@ -321,6 +321,7 @@ int main(int argc, char** argv) {
     const int maxDepth = thorough ? 3 : 2;
     for (int depth = 1; depth <= maxDepth && !frontier.empty(); ++depth) {
       const uint64_t per = 6 * nb;
+      R.usedMin_ = true;
       auto lines = R.phase(
           "lattice-bfs-d" + std::to_string(depth), frontier.size() * per, per,
           [&](uint64_t idx, Ctx& c) {
@@ -345,28 +346,27 @@ int main(int argc, char** argv) {
               return;  // violating states are not expanded
             }
             uint64_t h = mix64(want) ^ canonGeomHash(r.GetMeshGL64());
-            if (c.distinct(h)) {
+            // the representative of a state is the smallest program index reaching it: deterministic
+            // frontier (and therefore stable violation keys) however the workers race
+            if (c.distinctMin(h, idx)) {
               if (want != 0) c.nontrivial(h);
-              std::ostringstream s;
-              s << h;
-              for (int v : p) s << " " << v;
-              c.emit(s.str());
               if (idx % 50 == 0) c.sample(str);
             }
           },
           {"transitions"});
       std::vector<St> next;
-      for (auto& l : lines) {
-        std::istringstream s(l);
-        uint64_t h;
-        s >> h;
-        if (seen.count(h)) continue;
-        seen[h] = depth;
+      (void)lines;
+      for (auto& ht : R.minTags()) {
+        if (seen.count(ht.first)) continue;
+        seen[ht.first] = depth;
         St st;
-        int v;
-        while (s >> v) st.prog.push_back(v);
+        st.prog = frontier[ht.second / per].prog;
+        int k = ht.second % per;
+        st.prog.push_back(k / nb);
+        st.prog.push_back(k % nb);
         next.push_back(st);
       }
+      R.usedMin_ = false;
       frontier.swap(next);
       if (!R.a.onlyCase.empty()) break;
     }
